@@ -7,3 +7,8 @@ long long c29_call_l(long long (*f)(int, long long), int a, long long b) { retur
 double c29_call_d(double (*f)(double), double x) { return f(x); }
 long c29_sizeof_closure(void) { return (long)sizeof(ffi_closure); }
 long c29_pagesize(void) { long p = sysconf(_SC_PAGESIZE); return p > 0 ? p : 4096; }
+
+/* callbacks taking char32_t / wchar_t / _Bool, invoked with an arbitrary raw value (possibly one that
+   convert_to_object rejects: a code point above 0x10FFFF, a _Bool byte other than 0/1) */
+int c29_call_raw32(int (*f)(unsigned int), unsigned int raw) { return f(raw); }
+int c29_call_raw8(int (*f)(unsigned char), unsigned char raw) { return f(raw); }
